@@ -60,6 +60,8 @@ def sig_of(v):
         return "%s/%s/ban%s" % (v.get("prop"), what, st.get("ban")) + ("/bystander-%s-address" % st.get("third") if "bystander" in what else "") + ("/shared-account" if st.get("shared") else "")
     if op == "multi":
         return "%s/%s/edit%s/%s" % (v.get("prop"), what, st.get("edit"), d.get("session", "?"))
+    if op == "open":
+        return "%s/%s/editor-%s" % (v.get("prop"), what, "16+17" if 17 in (st.get("racc") or []) else "16")
     if op == "upd":
         return "%s/%s/via%s" % (v.get("prop"), what, st.get("via"))
     if op == "rt":
@@ -72,6 +74,7 @@ def _case_of(ev):
     keys = {"handle": ("op", "t", "k", "acc", "rd"), "create": ("op", "via", "by", "acc", "login", "want", "shape"),
             "kick": ("op", "acc", "tacc", "ban", "third", "pacc", "shared"), "rt": ("op", "S", "bytes", "names"),
             "upd": ("op", "via", "S", "old", "bytes"),
+            "open": ("op", "S", "racc", "bytes", "rbytes"),
             "multi": ("op", "kind", "edit", "n", "k", "a0", "a1", "ban", "via", "want")}.get(ev.get("op"), ())
     return {k: ev[k] for k in keys if k in ev}
 
